@@ -2,6 +2,8 @@ package c05
 
 import (
 	"fmt"
+	"go/types"
+	"sync"
 
 	"github.com/go-critic/go-critic/linter"
 
@@ -17,6 +19,83 @@ import (
 // plus the renamed-import variants of the examples (fw.LoadRenamed); every result must equal the checker's result in the
 // set with ALL checkers enabled (full: file ID -> outcome per checker, registry order).
 func selectionStream(meta *common.Meta, c *corpus, infos []*linter.CheckerInfo, files []*fw.File, full map[string][]fw.Outcome) {
+	selectionUnder(meta, c, infos, files, full, fw.Sizes, "host type sizes, registered parameter values")
+}
+
+// fullOutcomes runs ALL checkers (one set per worker, built on contexts with the given sizes) over files.
+func fullOutcomes(c *corpus, infos []*linter.CheckerInfo, files []*fw.File, sizes types.Sizes) map[string][]fw.Outcome {
+	out := map[string][]fw.Outcome{}
+	var mu sync.Mutex
+	byPkg := map[*fw.Pkg][]*fw.File{}
+	var pkgs []*fw.Pkg
+	for _, f := range files {
+		if byPkg[f.Pkg] == nil {
+			pkgs = append(pkgs, f.Pkg)
+		}
+		byPkg[f.Pkg] = append(byPkg[f.Pkg], f)
+	}
+	ch := make(chan *fw.Pkg, len(pkgs))
+	for _, p := range pkgs {
+		ch <- p
+	}
+	close(ch)
+	var wg sync.WaitGroup
+	for w := 0; w < 16; w++ {
+		wg.Add(1)
+		go func() {
+			defer wg.Done()
+			set, err := fw.NewSetSizes(c.fset, infos, sizes)
+			if err != nil {
+				return
+			}
+			for p := range ch {
+				for _, f := range byPkg[p] {
+					set.Enter(f, false)
+					outs := make([]fw.Outcome, len(infos))
+					for ci, chk := range set.Checkers {
+						outs[ci] = fw.SafeCheck(chk, f)
+					}
+					mu.Lock()
+					out[f.ID()] = outs
+					mu.Unlock()
+				}
+			}
+		}()
+	}
+	wg.Wait()
+	return out
+}
+
+// selectionForeign repeats the comparison for a FOREIGN target (GOARCH=386 type sizes handed to NewContext) and with every
+// boolean parameter of every checker flipped: a constructor that adjusts the SHARED context for its own purposes (sizes,
+// tables, version) does so only under some parameter values, and the adjustment is only visible when it differs from
+// what the integrator configured.
+func selectionForeign(meta *common.Meta, c *corpus, infos []*linter.CheckerInfo, files []*fw.File) {
+	sizes := types.SizesFor("gc", "386")
+	type cell struct {
+		p   *linter.CheckerParam
+		old interface{}
+	}
+	var flipped []cell
+	for _, info := range infos {
+		for _, p := range info.Params {
+			if b, ok := p.Value.(bool); ok {
+				flipped = append(flipped, cell{p, p.Value})
+				p.Value = !b
+			}
+		}
+	}
+	defer func() {
+		for _, f := range flipped {
+			f.p.Value = f.old
+		}
+	}()
+	full := fullOutcomes(c, infos, files, sizes)
+	selectionUnder(meta, c, infos, files, full, sizes, "GOARCH=386 type sizes, every boolean parameter flipped")
+	meta.Distribution["selection_foreign_bool_params_flipped"] = len(flipped)
+}
+
+func selectionUnder(meta *common.Meta, c *corpus, infos []*linter.CheckerInfo, files []*fw.File, full map[string][]fw.Outcome, sizes types.Sizes, label string) {
 	type diff struct {
 		ci   int
 		f    *fw.File
@@ -27,7 +106,7 @@ func selectionStream(meta *common.Meta, c *corpus, infos []*linter.CheckerInfo, 
 	evals := make([]int, len(infos))
 	warned := make([]int, len(infos))
 	fw.Parallel(len(infos), func(ci int) {
-		set, err := fw.NewSet(c.fset, []*linter.CheckerInfo{infos[ci]})
+		set, err := fw.NewSetSizes(c.fset, []*linter.CheckerInfo{infos[ci]}, sizes)
 		if err != nil {
 			return
 		}
@@ -55,18 +134,20 @@ func selectionStream(meta *common.Meta, c *corpus, infos []*linter.CheckerInfo, 
 			info := infos[ci]
 			// like with like: if lone instances already disagree AMONG THEMSELVES on this file, the difference is
 			// nondeterminism of the checker (C02's subject), not an effect of the selection
-			if unstable, _ := fw.FreshUnstable(info, d.f, d.got, d.got); unstable {
+			if unstable, _ := fw.FreshUnstable(info, d.f, d.got, d.got); unstable && sizes == fw.Sizes {
 				meta.Notes = append(meta.Notes, "not counted as selection dependence (lone instances disagree among themselves; see C02): "+info.Name+" on "+d.f.ID())
 				continue
 			}
 			meta.Fail("C05/"+info.Name+"/depends-on-selection",
-				fmt.Sprintf("%s reports differently on %s when it is the only enabled checker than when all checkers are enabled", info.Name, d.f.ID()),
+				fmt.Sprintf("%s reports differently on %s when it is the only enabled checker than when all checkers are enabled (%s)", info.Name, d.f.ID(), label),
 				map[string]interface{}{"checker": info.Name, "file": d.f.Path, "source": string(d.f.Src), "alone": fw.Strs(d.got.Ws), "alone_panic": d.got.Panic,
 					"with_all_checkers": fw.Strs(d.want.Ws), "with_all_panic": d.want.Panic,
 					"replay": "NewContext; NewChecker(" + info.Name + ") only; SetPackageInfo/SetFileInfo/Check  versus  the same with every registered checker constructed on the context first (go-critic check -enable=" + info.Name + " vs -enableAll)"})
 		}
 	}
-	meta.Distribution["selection_alone_vs_all_comparisons"] = total
-	meta.Distribution["selection_comparisons_with_warnings"] = nonTrivial
+	prev, _ := meta.Distribution["selection_alone_vs_all_comparisons"].(int)
+	prevW, _ := meta.Distribution["selection_comparisons_with_warnings"].(int)
+	meta.Distribution["selection_alone_vs_all_comparisons"] = prev + total
+	meta.Distribution["selection_comparisons_with_warnings"] = prevW + nonTrivial
 	meta.Evaluations += total
 }
